@@ -1320,6 +1320,9 @@ class Interp:
         for (cn, at), required in TRACKED_LISTS.items():
             if required and ('a', cn, at) not in st:
                 raise AnchorMissing("%s.%s is no longer initialised to [] in the constructor" % (cn, at))
+        if ('a', 'Mailbox', '_processed') not in st:
+            # not created by the constructor: whatever method creates it later starts it (again) from the empty set
+            st[('a', 'Mailbox', '_processed')] = FS(frozenset())
         for k in (('a', CONNECTOR, '_ws'), ('a', CONNECTOR, '_stopping'),
                   ('a', CONNECTOR, '_have_made_a_successful_connection'), ('a', 'Mailbox', '_processed')):
             if k not in st:
